@@ -188,30 +188,55 @@ static Outcome run_one(const Case &c) {
     o.cls(below && above ? "crc:both-sides-of-threshold" : above ? "crc:accelerated-only" : "crc:portable-only");
     if (align) o.cls("crc:misaligned");
   } else if (op.k == "aes") {
-    size_t klen = (A(0) & 1) ? 32 : 16;
-    std::string key = prbytes(seed, klen), blk = prbytes(seed ^ 0x77, 16);
-    uint8_t ref[16];
+    // a case is a short history of key expansions + block encryptions in each variant: every key after the first is either fresh or the previous
+    // key with one byte changed / re-used / cut to the other length (results must not depend on what was expanded before)
+    std::vector<std::string> keys, blks;
+    for (const Op &q : c) {
+      if (q.k != "aes" || keys.size() >= 8) continue;
+      auto Q = [&](size_t i) -> int64_t { return i < q.a.size() ? q.a[i] : 0; };
+      size_t klen = (Q(0) & 1) ? 32 : 16;
+      uint64_t sd = (uint64_t)Q(1);
+      std::string key = prbytes(sd, klen);
+      int rel = (int)(Q(2) & 3);
+      if (!keys.empty() && rel) {
+        std::string pk = keys.back();
+        if (rel == 3) pk = prbytes(sd, 16);        // fresh first half ...
+        key = pk + key.substr(std::min(pk.size(), key.size()));  // ... previous key as prefix, fresh tail if longer
+        key.resize(klen);
+        if (rel == 1) key[(size_t)(((Q(3) % (int64_t)klen) + (int64_t)klen) % (int64_t)klen)] ^= (char)(1 << (sd & 7));
+        if (rel == 3 && keys.back().size() == 32 && klen == 32) key.replace(16, 16, keys.back().substr(16));  // same second half, other first half
+        o.cls(rel == 1 ? "aes:related-key-one-byte" : rel == 2 ? "aes:same-key-again-or-prefix" : "aes:related-key-half");
+      }
+      keys.push_back(key);
+      blks.push_back(prbytes(sd ^ 0x77, 16));
+    }
+    std::vector<std::string> ref(keys.size());
     for (int pass = 0; pass < 2; pass++)
       for (size_t i = 0; i < VS.size(); i++) {
         if ((pass == 0) != ((int)i == REF)) continue;
-        uint8_t out[16];
-        Buf kb(klen, (int)((seed >> 5) & 15));  // the key buffer may sit at any address
-        memcpy(kb.p, key.data(), klen);
-        if (VS[i].aes(kb.p, klen, (const uint8_t *)blk.data(), out)) {
-          o.fail("aes-expand-failed", "crypto_aes_key_expand failed");
-          return o;
-        }
-        if (pass == 0)
-          memcpy(ref, out, 16);
-        else if (memcmp(ref, out, 16) != 0) {
-          snprintf(m, sizeof m, "AES-%zu block differs between variant %s (path %s) and the portable build", klen * 8, VS[i].name.c_str(), pathname(VS[i].p, 2).c_str());
-          o.fail("aes-path-" + pathname(VS[i].p, 2), m);
-          return o;
+        for (size_t j = 0; j < keys.size(); j++) {
+          size_t klen = keys[j].size();
+          uint8_t out[16];
+          Buf kb(klen, (int)((seed >> 5) & 15));  // the key buffer may sit at any address
+          memcpy(kb.p, keys[j].data(), klen);
+          if (VS[i].aes(kb.p, klen, (const uint8_t *)blks[j].data(), out)) {
+            o.fail("aes-expand-failed", "crypto_aes_key_expand failed");
+            return o;
+          }
+          if (pass == 0)
+            ref[j].assign((const char *)out, 16);
+          else if (memcmp(ref[j].data(), out, 16) != 0) {
+            snprintf(m, sizeof m, "AES-%zu block differs between variant %s (path %s) and the portable build (key %zu of %zu in this history)", klen * 8, VS[i].name.c_str(),
+                     pathname(VS[i].p, 2).c_str(), j + 1, keys.size());
+            o.fail("aes-path-" + pathname(VS[i].p, 2), m);
+            return o;
+          }
         }
         pathsrun.insert(VS[i].p & 8);
       }
     o.nontrivial = pathsrun.size() >= 2;
-    o.cls(klen == 16 ? "aes:128" : "aes:256");
+    for (auto &k : keys) o.cls(k.size() == 16 ? "aes:128" : "aes:256");
+    if (keys.size() >= 2) o.cls("aes:history>=2-keys");
   } else if (op.k == "ctr") {
     size_t klen = (A(3) & 1) ? 32 : 16;
     uint64_t nonce = (uint64_t)A(4);
@@ -297,7 +322,12 @@ static rc::Gen<Case> gen_crc(int tier) {
 static rc::Gen<Case> gen_aes(int) {
   return rc::gen::exec([]() {
     Case c;
-    c.push_back(Op("aes", {*range<int>(0, 1), *rc::gen::arbitrary<int>()}));
+    int n = *rc::gen::weightedElement<int>({{3, 1}, {3, 2}, {2, 3}, {1, 6}});
+    int kl = *range<int>(0, 1);
+    for (int i = 0; i < n; i++) {
+      if (*range<int>(0, 3) == 0) kl = *range<int>(0, 1);  // mostly the same length in a row
+      c.push_back(Op("aes", {kl, *rc::gen::arbitrary<int>(), *rc::gen::weightedElement<int>({{2, 0}, {4, 1}, {1, 2}, {2, 3}}), *range<int>(0, 31)}));
+    }
     return c;
   });
 }
@@ -331,7 +361,7 @@ int main(int argc, char **argv) {
   subs.push_back({"crc32c", std::string("CRC32C: lengths 0..64 dense .. 100000, alignment 0..15, update calls of 0..7, 8, 9..17 bytes mixed in one stream (both sides of the 8-byte threshold).") + G +
                                 " Non-trivial: >=2 paths ran and the stream has calls on each side of the threshold",
                   gen_crc, run_one});
-  subs.push_back({"aes", std::string("AES-128/256 block encryption with generated keys and blocks.") + G + " Non-trivial: >=2 paths ran", gen_aes, run_one});
+  subs.push_back({"aes", std::string("histories of 1..6 AES-128/256 key expansions + block encryptions per variant; later keys are fresh, the previous key with one byte changed, the same key, or share a half with it.") + G + " Non-trivial: >=2 paths ran", gen_aes, run_one});
   subs.push_back({"aesctr", std::string("AES-CTR streams: key 128/256, nonce incl. 0, 2^64-1, byte-boundary values, start offsets just before the 256- and 65536-block carries, calls of 0..15, "
                                         "16, 17..64 bytes mixed (both sides of the 16-byte threshold), in place or separate buffers, alignments 0..15.") +
                                 G + " Non-trivial: >=2 paths ran and the stream has calls on each side of the threshold",
